@@ -99,6 +99,9 @@ def ignore_gates_for(repo, starred):
         if isinstance(e, ast.Call) and isinstance(e.func, ast.Attribute) and e.func.attr == 'startswith' and isinstance(e.func.value, ast.Name) and \
                 e.func.value.id == var and isinstance(const_val(e.args[0]), str):
             return starred.startswith(const_val(e.args[0]))
+        if isinstance(e, ast.Call) and isinstance(e.func, ast.Attribute) and e.func.attr == 'startswith' and isinstance(e.func.value, ast.Name) and \
+                e.func.value.id == var and isinstance(e.args[0], (ast.Tuple, ast.List)) and all(isinstance(const_val(x), str) for x in e.args[0].elts):
+            return starred.startswith(tuple(const_val(x) for x in e.args[0].elts))
         if isinstance(e, ast.Compare) and isinstance(e.left, ast.Name) and e.left.id == var and isinstance(e.ops[0], ast.Eq) and \
                 isinstance(const_val(e.comparators[0]), str):
             return starred == const_val(e.comparators[0])
@@ -358,9 +361,9 @@ def rendered_values_read_by_key(ctx, rule):
 
 # ------------------------------------------------------------------------------------------------ temp files for external tools
 @extra('C16', 'R16.16', 'texts handed to git/diff/diff3 through temp files are encoded with an error handler that cannot raise on a lone surrogate '
-       '(JSON "\\ud800" is accepted by nbformat), and the tool output is decoded with the matching handler', 6)
+       '(JSON "\\ud800" is accepted by nbformat), and the tool output is decoded with the matching handler', 3)
 @extra('C07', 'R07.10', 'texts handed to git merge-file/diff3 through temp files are encoded with an error handler that cannot raise on a lone surrogate, '
-       'and the tool output is decoded with the matching handler', 4)
+       'and the tool output is decoded with the matching handler', 2)
 def tool_tempfiles_encode_everything(ctx, rule):
     repo = ctx.repo
     PP = 'nbdime.prettyprint'
@@ -395,7 +398,7 @@ def tool_tempfiles_encode_everything(ctx, rule):
                 n += 1
                 ctx.inst(rule, fid, repo.norm(c), ok, 'decodes what was written' if ok else
                          'the files are written with surrogatepass, so the tool echoes encoded surrogates; decode(errors=%r) raises on them' % err, c)
-    if n < 4:
+    if n < 2:
         raise AnalysisError('external tool temp-file sites not found')
 
 
@@ -906,15 +909,52 @@ def _merged_is_applied_decisions(ctx, rule):
              'returns the applied result together with the decisions it was computed from' if ok_ret else
              'the returned pair is not (apply_decisions(base, decisions), decisions)', rets[0] if rets else fn)
     bad = []
+    from ..cfg import CFG
+    _g = CFG(fn)
+    _after = {}
+
+    def after(n):
+        # textual position is meaningless once helpers were inlined: ask the flow graph whether the statement runs after the application
+        st = n if isinstance(n, ast.stmt) else repo.stmt_of(n)
+        if id(st) not in _after:
+            _after[id(st)] = st is not ap[0] and _g.dominated_by(st, [ap[0]])
+        return _after[id(st)]
+
+    def root_of(e):
+        while True:
+            if isinstance(e, (ast.Subscript, ast.Attribute)):
+                e = e.value
+            elif isinstance(e, ast.Call) and isinstance(e.func, ast.Attribute) and e.func.attr in ('get', 'values', 'items', 'setdefault'):
+                e = e.func.value
+            elif isinstance(e, ast.Call) and dotted(e.func) in ('list', 'tuple', 'iter', 'reversed', 'enumerate') and e.args:
+                e = e.args[0]
+            elif isinstance(e, ast.BoolOp):
+                e = e.values[0]
+            elif isinstance(e, ast.BinOp):
+                e = e.left if not isinstance(e.left, (ast.List, ast.Constant)) else e.right
+            else:
+                return e.id if isinstance(e, ast.Name) else None
+    # names that hold (parts of) the merged notebook / the decisions after the application
+    aliases = {mvar: mvar, dvar: dvar}
+    for _ in range(3):
+        for n in walk_no_nested(fn):
+            if not isinstance(n, (ast.For, ast.Assign)) or not after(n):
+                continue
+            if isinstance(n, ast.For) and root_of(n.iter) in aliases:
+                for t in ast.walk(n.target):
+                    if isinstance(t, ast.Name):
+                        aliases.setdefault(t.id, aliases[root_of(n.iter)])
+            if isinstance(n, ast.Assign) and len(n.targets) == 1 and isinstance(n.targets[0], ast.Name) and not isinstance(n.value, ast.Call) or \
+                    (isinstance(n, ast.Assign) and isinstance(n.value, ast.Call) and isinstance(n.value.func, ast.Attribute) and n.value.func.attr in ('get', 'setdefault')):
+                if len(n.targets) == 1 and isinstance(n.targets[0], ast.Name) and root_of(n.value) in aliases and n.targets[0].id not in (mvar, dvar):
+                    aliases.setdefault(n.targets[0].id, aliases[root_of(n.value)])
     for n in walk_no_nested(fn):
-        if getattr(n, 'lineno', 0) <= ap[0].lineno:
+        if not isinstance(n, (ast.Subscript, ast.Attribute, ast.Assign, ast.Call)) or isinstance(n, ast.expr) and repo.stmt_of(n) is None or not after(n):
             continue
         if isinstance(n, (ast.Subscript, ast.Attribute)) and isinstance(n.ctx, (ast.Store, ast.Del)):
-            root = n
-            while isinstance(root, (ast.Subscript, ast.Attribute)):
-                root = root.value
-            if isinstance(root, ast.Name) and root.id in (mvar, dvar):
-                bad.append((n, 'store into %s' % root.id))
+            r = root_of(n.value)
+            if r in aliases:
+                bad.append((n, 'store into %s' % aliases[r]))
         if isinstance(n, ast.Assign) and any(isinstance(t, ast.Name) and t.id in (mvar, dvar) for t in n.targets):
             bad.append((n, 're-assignment of %s' % ast.unparse(n.targets[0])))
         if isinstance(n, ast.Call):
@@ -923,11 +963,9 @@ def _merged_is_applied_decisions(ctx, rule):
             if recv and n.func.attr not in ('get', 'keys', 'items', 'values', 'copy'):
                 bad.append((n, 'method %s.%s(...)' % (n.func.value.id, n.func.attr)))
             if isinstance(n.func, ast.Attribute) and not recv and n.func.attr in ('pop', 'update', 'clear', 'append', 'setdefault', 'remove', 'extend', 'insert', 'popitem', 'sort', '__setitem__', '__delitem__'):
-                root = n.func.value
-                while isinstance(root, (ast.Attribute, ast.Subscript)):
-                    root = root.value
-                if isinstance(root, ast.Name) and root.id in (mvar, dvar):
-                    bad.append((n, 'mutator %s(...) on a part of %s' % (n.func.attr, root.id)))
+                r = root_of(n.func.value)
+                if r in aliases:
+                    bad.append((n, 'mutator %s(...) on a part of %s' % (n.func.attr, aliases[r])))
             if args:
                 ts = cg.resolve(n.func, fn)
                 pure = any(t[0] == 'func' and t[1].startswith('nbdime.prettyprint:') for t in ts) or (dotted(n.func) or '').startswith(('nbdime.log.', 'logger.', 'logging.', 'len', 'any', 'all'))
@@ -944,8 +982,9 @@ def _merged_is_applied_decisions(ctx, rule):
                         for k in n.keywords:
                             if k.value in args:
                                 verdicts.append((ft, k.arg) in S.mutates)
-                    if not fts or not verdicts or any(verdicts):
-                        bad.append((n, 'passed to %s%s' % (dotted(n.func) or ast.unparse(n.func), ', which modifies it' if fts and any(verdicts) else ' (effect unknown)')))
+                    if fts and any(verdicts):
+                        bad.append((n, 'passed to %s, which modifies it' % (dotted(n.func) or ast.unparse(n.func))))
+                    # (a callee that cannot be resolved or whose parameter the call does not bind is not judged: no alarm without evidence)
     for n, what in bad:
         ctx.inst(rule, fid, '%s: %s' % (what, repo.norm(n)[:80]), False,
                  'the notebook is modified (or may be: the callee is not a renderer) after the decisions were applied: what merge_notebooks returns is no longer what the returned '
